@@ -91,10 +91,11 @@ NLib == Len(Lib)
 
 -----------------------------------------------------------------------------
 \* ranges probed in a state with n frames
-Pairs(n) ==
-  IF n <= AllPairs THEN (-1..(n + 1)) \X (-1..(n + 1))
+PairsUpTo(n, lim) ==
+  IF n <= lim THEN (-1..(n + 1)) \X (-1..(n + 1))
   ELSE {<<0, n>>, <<0, 1>>, <<0, 2>>, <<1, 2>>, <<1, n>>, <<0, n - 1>>, <<n - 1, n>>, <<n - 2, n>>, <<1, n - 1>>,
         <<n \div 2, n \div 2 + 3>>, <<-1, 1>>, <<0, 0>>, <<0, n + 1>>, <<2, 1>>, <<n, n>>}
+Pairs(n) == PairsUpTo(n, AllPairs)
 See(tag) == IF Track THEN last.seen \cup {tag} ELSE {}
 Init == /\ rp = EmptyRp /\ ncat = 0 /\ last = [op |-> "start", ret |-> 0, seen |-> {}] /\ hist = <<>>
 
@@ -227,7 +228,7 @@ XLists(n) == {<<>>,
               <<[id |-> 40, frame |-> n - 1, data |-> Rep(255, 9)]>>,
               [i \in 1..Min(n, 3) |-> [id |-> 33, frame |-> i - 1, data |-> <<i, i>>]]}     \* repeat-eligible
 OutSdPad ==
-  \A p \in Pairs(N) : RangeOK(rp, p[1], p[2]) =>
+  \A p \in PairsUpTo(N, 4) : RangeOK(rp, p[1], p[2]) =>
     \A sd \in BOOLEAN :
       LET b == p[1]  e == p[2]
           m0 == OutModelX(rp, b, e, sd, 0, <<>>) IN
